@@ -597,7 +597,8 @@ def e_cfg(k: int) -> bool:
     """
     cfgi, chi, conci, i0 = digits(k, [5, 5, 3, 3])
     with NoTracing():
-        return _e('e_cfg', [[0, 9, 40][i0], 12, 21], 1, 0, 0, [1, 2, 5][conci], cfgi, chi)
+        # the third file is large enough (hundreds of chunks) to fill the producer queue (10 x concurrency) several times
+        return _e('e_cfg', [[0, 9, 40][i0], 12, [21, 700, 333][(cfgi + chi) % 3]], 1, 0, 0, [1, 2, 5][conci], cfgi, chi)
 
 
 FULL_RADICES = [11, 11, 3, 4, 10, 6, 3, 5, 5]
